@@ -327,8 +327,11 @@ func (self *AofFile) ReadLock(lock *AofLock) error {
 
 	lockLen := uint16(buf[0]) | uint16(buf[1])<<8
 	if n != int(lockLen)+2 {
-		nn, nerr := self.rbuf.Read(buf[n:64])
+		nn, nerr := io.ReadFull(self.rbuf, buf[n:64])
 		if nerr != nil {
+			if nerr == io.ErrUnexpectedEOF {
+				return io.EOF
+			}
 			return nerr
 		}
 		n += nn
